@@ -2,6 +2,8 @@ import MsVerif.Driver.OpsTypes
 import MsVerif.Driver.OpsMs
 import MsVerif.Driver.OpsTap
 import MsVerif.Driver.OpsPolicy
+import MsVerif.Driver.OpsSpend
+import MsVerif.Driver.OpsSat
 
 namespace MsVerif.Driver
 
@@ -16,6 +18,9 @@ def step (st : DState) (line : String) : DState × String :=
     match defLine st.tables args with
     | some t => ({ st with tables := t }, "ok")
     | none => (st, "bad-def")
+  -- generic judges whose verdict was computed on the harness side by an oracle that is not
+  -- code under test: the failing case is on the line, the driver only turns it into ok/bad
+  | "J" :: "nopanic" :: args => (st, if args.getLast? == some "PANIC" then "bad:panic" else "ok")
   | kind :: op :: args =>
     match opsTypes kind op args with
     | some r => (st, r)
@@ -28,7 +33,13 @@ def step (st : DState) (line : String) : DState × String :=
         | none =>
           match opsPolicy kind op args with
           | some r => (st, r)
-          | none => (st, "bad-op")
+          | none =>
+            match opsSpend st.tables kind op args with
+            | some r => (st, r)
+            | none =>
+              match opsSat st.tables kind op args with
+              | some r => (st, r)
+              | none => (st, "bad-op")
   | _ => (st, "bad-op")
 
 end MsVerif.Driver
